@@ -80,6 +80,11 @@ func GenConfig(r *Rng, backing string, merge bool) Config {
 			c.IndexMinKeyBytes = 1
 		}
 	}
+	if backing == "custom" {
+		// an application lower level that starts out with nothing may as
+		// well hand moss no initial snapshot at all
+		c.NoLowerInit = r.Chance(1, 3)
+	}
 	if backing != "none" && r.Chance(1, 6) {
 		c.MaxDirtyOps = uint64(r.Pick(1, 3, 8))
 		c.MaxDirtyKeyValBytes = uint64(r.Pick(10, 100, 100000))
